@@ -10,6 +10,7 @@ import DdnnfVerif.Model.Concurrency
 import DdnnfVerif.Model.Sample
 import DdnnfVerif.Model.Persist
 import DdnnfVerif.Model.Atomic
+import DdnnfVerif.Model.UnionFind
 import DdnnfVerif.Model.D4Load
 import DdnnfVerif.Model.D4Conv
 import DdnnfVerif.Model.StreamMsg
@@ -229,7 +230,12 @@ def answer (nodes : List NType) (n : Nat) (kind : String) (args : List String) :
       match args with
       | cross :: rest =>
           let (cs, As) := splitBar rest
-          ";".intercalate ((atomicSets nodes n (cs.filterMap String.toNat?) (parseIntsD As) (cross == "1") []).map fmtInts)
+          -- the transcription with the real union-find (path compression, union by rank); the abstract class
+          -- model the C08 theorems are about must give the same report (`UF.atomicSetsUF_eq_of_wf`)
+          let viaUF := UF.atomicSetsUF nodes n (cs.filterMap String.toNat?) (parseIntsD As) (cross == "1") []
+          let viaClasses := atomicSets nodes n (cs.filterMap String.toNat?) (parseIntsD As) (cross == "1") []
+          if viaUF == viaClasses then ";".intercalate (viaUF.map fmtInts)
+          else "union-find transcription and class model differ: " ++ ";".intercalate (viaUF.map fmtInts) ++ " vs " ++ ";".intercalate (viaClasses.map fmtInts)
       | [] => "bad-args"
   | "d4load" => d4loadAnswer args
   | "d4conv" => d4convAnswer args
